@@ -12,6 +12,10 @@ from . import c10, c07
 
 
 def run(ctx):
+    # per-well amounts gathered with numpy.vectorize need an explicit result type: without it the type of the first
+    # well decides, and an empty first well (int 0) truncates every later amount to whole storage units
+    from .c15 import t5 as _vectorize_dtype
+    _vectorize_dtype(ctx, 'C17.R4', only=('Recipe.bake',), dtype_only=True)
     # contents are keyed by Substance objects: the key laws this property's bookkeeping relies on
     from .identity import identity_discipline as _identity
     _identity(ctx, 'C17.R1', classes=('Substance',), memoised=False)
